@@ -359,10 +359,62 @@ def gen_scenario(rng):
 
 
 # ---------------- C07: thread lifecycle, scopes, thread-locals ----------------
+def gen_async_tls(rng):
+    """Spawned futures that own thread-locals whose destructors contain scheduling points: Wrapper::finish runs those
+    destructors before it publishes the result and wakes the task awaiting the JoinHandle, so the joiner's first poll may
+    fall inside a destructor.  Layout: body 0 = main (a thread), 1..n = futures, the last one or two bodies = destructors."""
+    ntask = rng.randint(1, 3)
+    ndtor = rng.randint(1, 2)
+    tasks = list(range(1, 1 + ntask))
+    dtors = list(range(1 + ntask, 1 + ntask + ndtor))
+    objl = ["a%d" % rng.choice([0, 1]), "m"]
+    keys = []
+    for _ in range(rng.randint(1, 2)):
+        keys.append(len(objl))
+        objl.append("k%d:%s" % (rng.randrange(0, 50), rng.choice([str(rng.choice(dtors)), str(rng.choice(dtors)), "-"])))
+    bodies = []
+    for b in range(1 + ntask + ndtor):
+        ops = []
+        if b in dtors:
+            for _ in range(rng.randint(1, 3)):
+                ops.append(rng.choice(["yd", "yd", "a0.add.1", "lk1;yd;ul1", "a0.ld"]))
+        else:
+            cands = [j for j in tasks if j > b]
+            handles = []
+            for _ in range(rng.randint(1, 6)):
+                acts = ["tls"] * 3 + ["step"] * 3
+                if cands:
+                    acts += ["spawn"] * 3
+                if handles:
+                    acts += ["await"] * 3 + ["abort", "detach"]
+                a = rng.choice(acts)
+                if a == "tls":
+                    ops.append("lw%d.%d" % (rng.choice(keys), rng.randrange(1, 9)))
+                elif a == "step":
+                    ops.append(rng.choice(["yd", "a0.add.1", "a0.ld"]) if b == 0 else rng.choice(["ay", "ay", "a0.add.1", "a0.ld"]))
+                elif a == "spawn":
+                    j = cands.pop(0)
+                    handles.append(len(handles))
+                    ops.append("as%d" % j)
+                elif a == "await":
+                    ops.append("aw%d" % handles.pop(rng.randrange(len(handles))))
+                elif a == "abort":
+                    ops.append("ab%d" % rng.choice(handles))
+                else:
+                    ops.append("dh%d" % handles.pop(rng.randrange(len(handles))))
+            for h in handles:
+                if rng.random() < 0.7:
+                    ops.append("aw%d" % h)
+        bodies.append(";".join(ops) if ops else "-")
+    return "prog none %s %d %s %s" % (gen_script(rng), rng.getrandbits(32), ",".join(objl), "|".join(bodies))
+
+
 def gen_lifecycle(rng):
     """Programs over spawn/join (nested, any order), scoped threads, thread-locals whose destructors use other
     thread-locals and synchronisation, thread ids.  Layout: body 0 = main; optional scope body (run inline by main,
     once); thread bodies; the last one or two bodies are destructor bodies (leaf bodies: no spawn, no blocking)."""
+    if rng.random() < 0.3:
+        return gen_async_tls(rng)
     nthreads = rng.randint(1, 4)
     ndtor = rng.randint(1, 2)
     has_scope = rng.random() < 0.55
